@@ -1346,3 +1346,67 @@ def _exline_term(model, extra):
         if not ok:
             problems.append(f"{t}: got {new} with {list(map(str, lits))}")
     return {"confirmed": bool(problems), "problems": problems[:3]}
+
+
+# ---------------------------------------------------------------------------------------------
+# C09
+@mirror("interface_positions")
+def _interface_positions(model, extra):
+    from clingo.ast import parse_string
+
+    from ngo.unused import UnusedTranslator
+    from ngo.utils.ast import Predicate
+
+    problems = []
+    for text, inp, outp in (
+        ("#show a/2. #project b/3. c(X) :- d(X,_), e(_,X). #show c/1.", [Predicate("x", 2), Predicate("d", 2)], [Predicate("y", 3), Predicate("e", 2)]),
+        ("{a(X,Y) : d(X,Y)}. b(X) :- a(X,_). #show b/1.", [Predicate("d", 2)], [Predicate("a", 2)]),
+        ("a(1,2,3). #show a/3. #project a/3.", [], [Predicate("zz", 1)]),
+    ):
+        prg = []
+        parse_string(text, prg.append)
+        ut = UnusedTranslator(prg, inp, outp)
+        ut.analyze_usage(prg)
+        want = list(inp) + list(outp)
+        for stm in prg:
+            if stm.ast_type in (A.ASTType.ShowSignature, A.ASTType.ProjectSignature):
+                want.append(Predicate(stm.name, stm.arity))
+        for p in want:
+            if p not in ut.used or set(range(p.arity)) - set(ut.used_positions[p]):
+                problems.append({"program": text, "predicate": str(p), "in_used": p in ut.used, "positions": sorted(ut.used_positions[p])})
+    return {"confirmed": bool(problems), "problems": problems[:3]}
+
+
+@mirror("remove_unused")
+def _remove_unused(model, extra):
+    from clingo.ast import parse_string
+
+    from ngo.unused import UnusedTranslator
+    from ngo.utils.ast import Predicate
+
+    problems = []
+    text = "not a :- b. not not c :- b. a :- b. d(X) :- e(X). {f} :- b. g ; h :- b. #sum{1 : i} <= 1 :- b. :- b. #show d/1. k(1)."
+    prg = []
+    parse_string(text, prg.append)
+    for used in (set(), {Predicate("d", 1)}, {Predicate("a", 0), Predicate("k", 1)}):
+        ut = UnusedTranslator(prg, [], [])
+        ut.used = set(used)
+        res = ut.remove_unused(prg)
+        for stm in prg:
+            if stm in res:
+                continue
+            h = stm.head if stm.ast_type == A.ASTType.Rule else None
+            ok = (
+                h is not None
+                and h.ast_type == A.ASTType.Literal
+                and h.sign == A.Sign.NoSign
+                and h.atom.ast_type == A.ASTType.SymbolicAtom
+                and h.atom.symbol.ast_type == A.ASTType.Function
+                and Predicate(h.atom.symbol.name, len(h.atom.symbol.arguments)) not in used
+            )
+            if not ok:
+                problems.append({"dropped": str(stm), "used": sorted(map(str, used))})
+        for stm in res:
+            if stm not in prg:
+                problems.append({"invented": str(stm)})
+    return {"confirmed": bool(problems), "problems": problems[:3]}
